@@ -259,3 +259,42 @@ def digest(schema):
 def load_real(s, url=None):
     import ZConfig
     return ZConfig.loadSchemaFile(io.StringIO(render_xml(s)), url)
+
+
+def load_real_chain(s, rng):
+    """the same schema delivered as a chain of three documents (top extends mid extends grand): only the innermost states
+    the key type and datatype, the outer two inherit them; types and top-level children are split in order.  The resulting
+    schema object must be the same as for the single document."""
+    import copy
+    import os
+    import shutil
+    import tempfile
+    import ZConfig
+    nt = len(s.types)
+    a, b = sorted([rng.randint(0, nt), rng.randint(0, nt)])
+    tsplit = [s.types[:a], s.types[a:b], s.types[b:]]
+    known = set()
+    csplit, rest = [], list(s.children)
+    for part in tsplit[:2]:
+        known |= {_basic_key(t.name) for t in part}
+        take = []
+        while rest and (rest[0].kind == "key" or _basic_key(rest[0].type) in known):
+            take.append(rest.pop(0))
+            if rng.random() < 0.3:
+                break
+        csplit.append(take)
+    csplit.append(rest)
+    d = tempfile.mkdtemp(prefix="zcv-chain-", dir="/dev/shm" if os.path.isdir("/dev/shm") else None)
+    try:
+        names = ["grand.xml", "mid.xml", "top.xml"]
+        for i, nm in enumerate(names):
+            part = SchemaD(csplit[i], tsplit[i], keytype=s.keytype if i == 0 else None, datatype=s.datatype if i == 0 else None,
+                           handler=s.handler if i == 2 else None)
+            xml = render_xml(part)
+            if i > 0:
+                xml = xml.replace("<schema", "<schema extends=%s" % quoteattr(names[i - 1]), 1)
+            with open(os.path.join(d, nm), "w", encoding="utf-8") as f:
+                f.write(xml)
+        return ZConfig.loadSchema(os.path.join(d, "top.xml"))
+    finally:
+        shutil.rmtree(d, ignore_errors=True)
